@@ -24,6 +24,10 @@ type E2ECase struct {
 	Desc   bool   `json:"desc"`
 	Vals   []Val  `json:"vals"`
 	Bounds []Val  `json:"bounds"`
+	// Composite: the index is (g, v) with g = k % 2 instead of (v); every filter then also fixes g,
+	// so the condition on v is decided by the index's value matcher on a non-leading field, not by the
+	// key range of the scan.
+	Composite bool `json:"composite,omitempty"`
 }
 
 func gqlType(k string) string {
@@ -94,7 +98,7 @@ func jsonLit(v Val) string {
 
 func drawE2E(t *rapid.T) E2ECase {
 	k := rapid.SampledFrom([]string{"int", "int", "f64", "f32", "str", "time"}).Draw(t, "kind")
-	c := E2ECase{Kind: k, Desc: rapid.Bool().Draw(t, "desc")}
+	c := E2ECase{Kind: k, Desc: rapid.Bool().Draw(t, "desc"), Composite: rapid.IntRange(0, 2).Draw(t, "composite") == 0}
 	n := rapid.IntRange(3, 10).Draw(t, "n")
 	gen := genValOf(k)
 	if k == "str" {
@@ -171,7 +175,18 @@ func bootE2E(c E2ECase, indexed bool) (*e2eNode, *hx.Failure) {
 			dir = "@index(direction: DESC)"
 		}
 	}
-	sdl := fmt.Sprintf("type T { v: %s %s\n k: Int }", gqlType(c.Kind), dir)
+	sdl := fmt.Sprintf("type T { v: %s %s\n k: Int\n g: Int }", gqlType(c.Kind), dir)
+	if c.Composite {
+		ix := ""
+		if indexed {
+			d := "ASC"
+			if c.Desc {
+				d = "DESC"
+			}
+			ix = fmt.Sprintf(`@index(includes: [{field: "g"}, {field: "v", direction: %s}])`, d)
+		}
+		sdl = fmt.Sprintf("type T %s { v: %s\n k: Int\n g: Int }", ix, gqlType(c.Kind))
+	}
 	if _, err := n.DB.AddSchema(n.Ctx, sdl); err != nil {
 		n.Close()
 		hx.Harnessf("schema rejected: %v", err)
@@ -182,7 +197,7 @@ func bootE2E(c E2ECase, indexed bool) (*e2eNode, *hx.Failure) {
 	}
 	e := &e2eNode{n: n}
 	for i, v := range c.Vals {
-		js := fmt.Sprintf(`{"k": %d, "v": %s}`, i, jsonLit(v))
+		js := fmt.Sprintf(`{"k": %d, "g": %d, "v": %s}`, i, i%2, jsonLit(v))
 		doc, err := client.NewDocFromJSON([]byte(js), col.Definition())
 		if err != nil {
 			n.Close()
@@ -209,6 +224,8 @@ func holds(op string, w int) bool {
 		return w <= 0
 	case "_eq":
 		return w == 0
+	case "_ne":
+		return w != 0
 	}
 	panic(op)
 }
@@ -235,9 +252,14 @@ func runE2E(c E2ECase) *hx.Failure {
 	}
 	defer twin.n.Close()
 
-	for _, b := range c.Bounds {
-		for _, op := range []string{"_gt", "_ge", "_lt", "_le", "_eq"} {
+	for bi, b := range c.Bounds {
+		for _, op := range []string{"_gt", "_ge", "_lt", "_le", "_eq", "_ne"} {
 			q := fmt.Sprintf(`query { T(filter: {v: {%s: %s}}) { k v } }`, op, jsonLit(b))
+			g := -1
+			if c.Composite {
+				g = bi % 2
+				q = fmt.Sprintf(`query { T(filter: {g: {_eq: %d}, v: {%s: %s}}) { k v } }`, g, op, jsonLit(b))
+			}
 			ri, rt := idx.n.Exec(q), twin.n.Exec(q)
 			if ri.Panic != "" {
 				return hx.Failf("C17/e2e/panic", "%s panicked on the indexed node: %s", q, ri.Panic)
@@ -251,7 +273,7 @@ func runE2E(c E2ECase) *hx.Failure {
 			// the order of the values themselves decides non-null rows
 			want := []int{}
 			for i, v := range c.Vals {
-				if v.K != "nil" && holds(op, cmp(v, b)) {
+				if v.K != "nil" && holds(op, cmp(v, b)) && (g < 0 || i%2 == g) {
 					want = append(want, i)
 				}
 			}
@@ -373,6 +395,9 @@ func TestC17E2E(t *testing.T) {
 			}
 		}
 		labels := []string{"e2e:" + e.Kind}
+		if e.Composite {
+			labels = append(labels, "e2e-composite-index(condition-on-non-leading-field)")
+		}
 		if e.Desc {
 			labels = append(labels, "e2e-desc-index")
 		}
